@@ -94,7 +94,7 @@ func init() {
 			return Plan{Level: "exploration", NCases: pick(tier, 800, 60000), Batch: 8, CaseTimeout: 60,
 				Rule: "one case = one concurrent history: 2-8 clients x 1-4 shared keys x 10-40 ops each (create / guarded update / guarded+unguarded delete / get; correct, stale and future expectations; unique values), " +
 					"keys start never-existed / live / deleted / deleted-and-compacted, PRNG delays before the engine commit, engines memkv/Badger/TiKV-mock +- metrics wrapper; " +
-					"oracle = chain rule + engine dump equality + certain-unjustified-failure rule + final read, and independently porcupine: each key's sub-history must be linearizable as a register of (revision, live) under conditional writes. " +
+					"oracle = chain rule + engine dump equality + certain-unjustified-failure rule + 'a failed compare never names the compared revision' + final read, and independently porcupine on all three engines: each key's sub-history must be linearizable as a register of (revision, live) under conditional writes. " +
 					"non-trivial = >=2 writers overlapped (call/return) on one key AND >=1 condition failed; distinct by revision-ordered outcome vector",
 				Assumptions: []string{"no request deadline is set, so no unknown outcomes occur (C09 covers those)", "schedules are sampled, not enumerated"},
 				MinConcl:    pick(tier, 500, 40000)}
